@@ -31,7 +31,7 @@ RULE = ("recordings of 12000-90000 samples x 65/97/385 channels, batch sizes {40
 ASSUMPTIONS = ["pyfftw replaced by a scipy.fft stand-in (numerically equivalent to +-1 LSB of the int16 output; worker-count identity and sync identity do not depend on it)",
                "workers share nothing but the output / QC files", "the batch-wise reference re-uses the repository's own per-batch building blocks (saturation, fshift, "
                "kfilt/car): it judges the batching / seek / stitch logic, not the DSP (C05, C16 do)"]
-REQUIRED = {"library_destripe_batches_compared": 12, "library_destripe_batches_with_outside_channels": 2, "configs": 4, "explicit_width_configs": 3, "stale_output_checked": 4, "width_compared": 3, "workers_probed": 10, "write_rows_judged": 50000, "orders_executed": 8, "sync_columns_compared": 4, "reference_compared": 4,
+REQUIRED = {"qc_files_in_requested_folder": 6, "library_destripe_batches_compared": 12, "library_destripe_batches_with_outside_channels": 2, "configs": 4, "explicit_width_configs": 3, "stale_output_checked": 4, "width_compared": 3, "workers_probed": 10, "write_rows_judged": 50000, "orders_executed": 8, "sync_columns_compared": 4, "reference_compared": 4,
             "saturated_samples": 10, "reject_runs_with_bad_channels": 1, "custom_filter_settings": 1, "compressed_inputs": 2, "inputs_with_inconsistent_metadata": 2, "qc_files_after_rerun": 6}
 CASE_TIMEOUT = 400.0
 MAX_PROCS = 10
@@ -294,6 +294,8 @@ def run_destripe(V, b, out, nbatch, nproc, opts, h=None):
         kw["k_kwargs"] = {k: (dict(v) if isinstance(v, dict) else v) for k, v in opts["k_kwargs"].items()}
     if opts.get("butter_kwargs") is not None:
         kw["butter_kwargs"] = dict(opts["butter_kwargs"])
+    if opts.get("qc_path") is not None:
+        kw["output_qc_path"] = opts["qc_path"]
     return V.decompress_destripe_cbin(b, **kw)
 
 
@@ -580,11 +582,21 @@ def run_case(case):
                 oo = d / f"w{nw}" / "out.bin"
                 oo.parent.mkdir()
                 try:
-                    run_destripe(V, b, oo, nbatch, nw, {"k_filter": True})
+                    # round 22: every other run is asked to put its quality files into a folder of their own (output_qc_path)
+                    qcd = oo.parent
+                    if nw == case["counts"][-1] or nw == case["counts"][0]:
+                        qcd = d / f"qc-w{nw}"
+                        qcd.mkdir()
+                    run_destripe(V, b, oo, nbatch, nw, {"k_filter": True, "qc_path": qcd if qcd != oo.parent else None})
                     outs[nw] = oo.read_bytes()
                     res.count("orders_executed")
                     res.count("loky_runs")
-                    rms = np.load(oo.parent / "_iblqc_ephysTimeRmsAP.rms.npy")
+                    if qcd != oo.parent:
+                        for qf, shp in (("_iblqc_ephysSaturation.samples.npy", (ns,)), ("_iblqc_ephysTimeRmsAP.rms.npy", (K, n)), ("_iblqc_ephysTimeRmsAP.timestamps.npy", (K,))):
+                            okq = (qcd / qf).exists() and np.load(qcd / qf).shape == shp
+                            res.check(okq, "qc:requested-folder", f"{label}: {nw} workers, output_qc_path={qcd.name}: {qf} "
+                                      f"{'has shape ' + str(np.load(qcd / qf).shape) if (qcd / qf).exists() else 'is not there'}, expected {shp}", counter="qc_files_in_requested_folder")
+                    rms = np.load(qcd / "_iblqc_ephysTimeRmsAP.rms.npy")
                     res.check(rms.shape[0] == K, "qc:rms-rows:loky", f"{label}: {nw} workers: {rms.shape[0]} RMS rows for {K} batches")
                 except Exception as e:
                     chunk = int(ns / nw)
